@@ -78,6 +78,7 @@ class Check:
         self.exhaustive = True
         self.assumptions: List[str] = []
         self.selftest: Optional[dict] = None
+        self.sweep: Optional[dict] = None
 
     # -- recording ----------------------------------------------------------
     @contextlib.contextmanager
@@ -217,6 +218,7 @@ class Check:
                 "analysis_errors": self.errors,
                 "notes": self.notes,
                 "selftest": self.selftest,
+                "mutation_sweep": self.sweep,
             },
             "assumptions": TRUSTED_BASE + self.assumptions,
             "wall_s": round(wall, 3),
